@@ -13,7 +13,10 @@
 //     annotations with plain word values (no comma: the format guesser would take
 //     the file for a CSV sheet; no number / boolean: typed by the header parser,
 //     property C02).  CSV format: no quoting, no blank around fields.  Names are
-//     words over letters, digits, '_', '.', '-'.
+//     words over letters, digits, '_', '.', '-'.  (TestPropSheetShape and
+//     TestPropSheetShapeCLI vary the byte-level layout of the file - line ends,
+//     final newline, blank / comment lines, separators, quoting, case, long
+//     lines: see shape_test.go for what is generated and what is left out.)
 //   - "No tag on this side" is written "-" in the two-word syntax ("tag:-", "-:tag",
 //     "-:-") as the CSV template documents; a lone "-" is not generated.
 //   - CSV parameters: only the names on which the template text printed by
@@ -111,9 +114,11 @@ func TestMain(m *testing.M) {
 		evid.Spec{Name: "TestPropDemux", Kind: "rapid", Quick: 20000, Thorough: 800000, QuickShards: 8, ThoroughShards: 16},
 		evid.Spec{Name: "TestPropCLI", Kind: "rapid", Quick: 480, Thorough: 12000, QuickShards: 8, ThoroughShards: 16},
 		evid.Spec{Name: "TestPropMosaic", Kind: "rapid", Quick: 6000, Thorough: 60000, QuickShards: 8, ThoroughShards: 16},
+		evid.Spec{Name: "TestPropSheetShape", Kind: "rapid", Quick: 8000, Thorough: 60000, QuickShards: 8, ThoroughShards: 16},
+		evid.Spec{Name: "TestPropSheetShapeCLI", Kind: "rapid", Quick: 800, Thorough: 5000, QuickShards: 8, ThoroughShards: 16},
 	)
 	evid.Commands("obimultiplex")
-	evid.Note("rule", "A case is a sample sheet (text or CSV format; 1-3 markers with pairwise different IUPAC primers of (8+3*budget)..36 nt; per marker and side one tag length 0..8, absent / asymmetric tags, 1-5 tags per side at pairwise distance >= 1..3, 1-8 declared tag pairs; CSV parameter lines for spacers 0..5, strict/hamming/indel matching, primer mismatches 0..3, primer indels, tag delimiter and tag indels in their global, forward_/reverse_ and per-primer forms; -e / --with-indels) plus 6-14 reads built by construction: flank + tag + spacer + primer with 0..budget(+1) mismatches + barcode + the same on the other strand, in either orientation, with declared / undeclared / random tag pairs, tag substitutions and indels, chimeras of 2-3 amplicons in mixed orientations, truncated or one-primer reads, random reads, mosaics of 2-4 pieces in any order and orientation (complete amplicons; partial ones: opening primer only, closing primer only, opening or closing primer 1-3 mismatches over budget; junk; TestPropMosaic draws mosaics only). Every read is submitted as is and reverse-complemented, in-process (obiformats.ReadNGSFilter + NGSLibrary.ExtractMultiBarcodeSliceWorker, as obimultiplex does) and in batches through the real command `obimultiplex -t sheet [-u file | --keep-errors] [-e N] [--with-indels]` (fasta and fastq). Oracles: (1) constructive - an independent brute-force scan (IUPAC Hamming / Sellers) of the four orientations of every primer; when the sites are exactly well-formed pairs the expected records (barcode forward->reverse, qualities, direction, primers, matches, error counts, tags at spacer distance, sample/experiment/annotations or error flag by own exact / unique-nearest Hamming / Levenshtein lookup) are compared as a multiset; no site at all -> one flagged copy of the read; well separated sites some of which are lone (class mixed) -> the amplicons are the neighbouring (opening, matching closing) pairs, none -> one flagged copy; (2) strand symmetry between the two runs; (3) safety on every record of every read: flagged, or assigned to the sample its reported tags designate, matches within budget at the reported distance, pieces adjacent in the read. Non-trivial = a determined amplicon assigned to a sample with >= 1 primer mismatch, a non-zero spacer next to a tag, or read in reverse orientation; for check mosaic: a read with >= 1 lone priming site next to >= 1 determined amplicon that the oracle assigns to a declared sample. Distinct = hash of (sheet text, options, read).")
+	evid.Note("rule", "A case is a sample sheet (text or CSV format; 1-3 markers with pairwise different IUPAC primers of (8+3*budget)..36 nt; per marker and side one tag length 0..8, absent / asymmetric tags, 1-5 tags per side at pairwise distance >= 1..3, 1-8 declared tag pairs; CSV parameter lines for spacers 0..5, strict/hamming/indel matching, primer mismatches 0..3, primer indels, tag delimiter and tag indels in their global, forward_/reverse_ and per-primer forms; -e / --with-indels) plus 6-14 reads built by construction: flank + tag + spacer + primer with 0..budget(+1) mismatches + barcode + the same on the other strand, in either orientation, with declared / undeclared / random tag pairs, tag substitutions and indels, chimeras of 2-3 amplicons in mixed orientations, truncated or one-primer reads, random reads, mosaics of 2-4 pieces in any order and orientation (complete amplicons; partial ones: opening primer only, closing primer only, opening or closing primer 1-3 mismatches over budget; junk; TestPropMosaic draws mosaics only). Every read is submitted as is and reverse-complemented, in-process (obiformats.ReadNGSFilter + NGSLibrary.ExtractMultiBarcodeSliceWorker, as obimultiplex does) and in batches through the real command `obimultiplex -t sheet [-u file | --keep-errors] [-e N] [--with-indels]` (fasta and fastq). Oracles: (1) constructive - an independent brute-force scan (IUPAC Hamming / Sellers) of the four orientations of every primer; when the sites are exactly well-formed pairs the expected records (barcode forward->reverse, qualities, direction, primers, matches, error counts, tags at spacer distance, sample/experiment/annotations or error flag by own exact / unique-nearest Hamming / Levenshtein lookup) are compared as a multiset; no site at all -> one flagged copy of the read; well separated sites some of which are lone (class mixed) -> the amplicons are the neighbouring (opening, matching closing) pairs, none -> one flagged copy; (2) strand symmetry between the two runs; (3) safety on every record of every read: flagged, or assigned to the sample its reported tags designate, matches within budget at the reported distance, pieces adjacent in the read. Non-trivial = a determined amplicon assigned to a sample with >= 1 primer mismatch, a non-zero spacer next to a tag, or read in reverse orientation; for check mosaic: a read with >= 1 lone priming site next to >= 1 determined amplicon that the oracle assigns to a declared sample. Distinct = hash of (sheet text, options, read). Checks shape / shapecli (TestPropSheetShape in-process, TestPropSheetShapeCLI through `obimultiplex -t file` or `-t /dev/stdin` fed through a pipe in 1-5 pieces): a sheet of the same generator (classical format favoured; CSV extra values that need quoting: commas, blanks, doubled quotes) is written with a generated byte-level shape - LF / CR LF / mixed line ends, last line with or without terminator, 0-3 lines after the last entry and lines inserted before 15-40 % of the lines (empty, comment, commented-out entry; classical: blanks-only lines, indented comments), classical: column separators = runs of 1-5 blanks / tabs, leading and trailing blanks / tabs; CSV: 30-100 % of the fields quoted, a blank after commas; every written primer and tag (rows and @param,name,primer,value lines) in a case style of its own; one comment line or one entry (pad annotation / pad column) of 200..100000 bytes around 3072 / 4096 / 8192 / 65536 (classical: up to 300000, sheets larger than the 128 KiB detection buffer), placed first, last or anywhere. The model never sees the shape. Reads: one well-formed amplicon per declared PCR in sheet order (first and last entry always exercised) plus 1-3 reads of the ordinary mixture, each as is and reverse-complemented; same three oracles. Non-trivial for shape / shapecli = the bytes of the file differ from the plain rendering and the oracle assigns an amplicon of the read (shapecli: of some read of the batch) to a declared sample; distinct = hash of (file bytes, options, read / batch).")
 	evid.Main(m, "C12")
 }
 
@@ -346,7 +351,7 @@ func checkReads(c demuxCase, count func(rd Read, v verdict)) (int, error) {
 	}
 	worker, err := library(c.Sheet)
 	if err != nil {
-		return -1, fmt.Errorf("%v\n--- sheet ---\n%s", err, c.Sheet.Text())
+		return -1, fmt.Errorf("%v\n--- sheet ---\n%s", err, c.Sheet.show())
 	}
 	for i, rd := range c.Reads {
 		var both [2][]outRec
@@ -354,11 +359,11 @@ func checkReads(c demuxCase, count func(rd Read, v verdict)) (int, error) {
 		for o, r := range []Read{rd, rd.revcomp()} {
 			recs, err := runWorker(worker, r)
 			if err != nil {
-				return i, fmt.Errorf("read %s: %v\n--- sheet ---\n%s", r.Seq, err, c.Sheet.Text())
+				return i, fmt.Errorf("read %s: %v\n--- sheet ---\n%s", r.Seq, err, c.Sheet.show())
 			}
 			v, err := judge(c.Sheet, ms, r, recs)
 			if err != nil {
-				return i, fmt.Errorf("read %s (%s): %v\n--- sheet (-e %d, --with-indels %v) ---\n%s", r.Seq, []string{"as generated", "reverse-complemented"}[o], err, c.Sheet.E, c.Sheet.WithIndels, c.Sheet.Text())
+				return i, fmt.Errorf("read %s (%s): %v\n--- sheet (-e %d, --with-indels %v) ---\n%s", r.Seq, []string{"as generated", "reverse-complemented"}[o], err, c.Sheet.E, c.Sheet.WithIndels, c.Sheet.show())
 			}
 			if count != nil {
 				count(r, v)
@@ -367,7 +372,7 @@ func checkReads(c demuxCase, count func(rd Read, v verdict)) (int, error) {
 		}
 		if cls[0] != "other" && cls[1] != "other" {
 			if err := symmetry(ms, both[0], both[1]); err != nil {
-				return i, fmt.Errorf("strand symmetry, read %s: %v\n--- sheet ---\n%s", rd.Seq, err, c.Sheet.Text())
+				return i, fmt.Errorf("strand symmetry, read %s: %v\n--- sheet ---\n%s", rd.Seq, err, c.Sheet.show())
 			}
 		}
 	}
